@@ -55,13 +55,16 @@ fn action_name(a: &Action) -> String {
 }
 
 /// (action, Some(true) = benign, commit must succeed; Some(false) = must fail; None = either)
-fn kinds_for(call: Call, r: &mut Rng) -> Vec<(Action, Option<bool>)> {
+fn kinds_for(call: Call, r: &mut Rng, ps: u64) -> Vec<(Action, Option<bool>)> {
     match call {
         Call::Write => vec![
             (Action::Errno(libc::EIO), Some(false)),
             (Action::Errno(libc::ENOSPC), Some(false)),
             (Action::Sticky(libc::ENOSPC), Some(false)),
             (Action::ShortThenErr { num: r.range(1, 7) as u32, den: 8, errno: libc::EIO }, Some(false)),
+            // a cut inside the first 104 bytes of a page: for the meta page that is inside the
+            // header record (bytes 32..104), word by word
+            (Action::ShortThenErr { num: 8 * r.range(1, 12) as u32, den: ps as u32, errno: libc::EIO }, Some(false)),
             (Action::Eintr, Some(true)),
             (Action::ShortOnly { num: r.range(1, 7) as u32, den: 8 }, Some(true)),
         ],
@@ -264,7 +267,7 @@ fn explore(case: &Case) -> Verdict {
     for (_, ci) in scored.into_iter().take(cap) {
         let rec = &base.commits[ci];
         for (idx, call) in rec.calls.iter().enumerate() {
-            for (action, expect) in kinds_for(*call, &mut r) {
+            for (action, expect) in kinds_for(*call, &mut r, case.pagesize) {
                 let plan = vec![Fault { nth: idx as u64, action }];
                 let v1 = one(case, steps.clone(), rec.n, plan.clone(), expect);
                 total += 1;
@@ -295,8 +298,8 @@ fn explore(case: &Case) -> Verdict {
                 continue;
             }
             let (a, b) = (a.min(b), a.max(b));
-            let ka = kinds_for(rec.calls[a], &mut r);
-            let kb = kinds_for(rec.calls[b], &mut r);
+            let ka = kinds_for(rec.calls[a], &mut r, case.pagesize);
+            let kb = kinds_for(rec.calls[b], &mut r, case.pagesize);
             if ka.is_empty() || kb.is_empty() {
                 continue;
             }
@@ -336,8 +339,8 @@ fn explore(case: &Case) -> Verdict {
         }
         let ia = r.below(a.calls.len() as u64) as usize;
         let ib = r.below(b.calls.len() as u64) as usize;
-        let ka: Vec<(Action, Option<bool>)> = kinds_for(a.calls[ia], &mut r).into_iter().filter(|k| k.1 == Some(false)).collect();
-        let kb = kinds_for(b.calls[ib], &mut r);
+        let ka: Vec<(Action, Option<bool>)> = kinds_for(a.calls[ia], &mut r, case.pagesize).into_iter().filter(|k| k.1 == Some(false)).collect();
+        let kb = kinds_for(b.calls[ib], &mut r, case.pagesize);
         if ka.is_empty() || kb.is_empty() {
             continue;
         }
